@@ -275,8 +275,14 @@ def check(prop, tier):
     design_check(prop, tier, out)
     rnd, sim, sim_states = gen_traces(tier, sd)
     traces = rnd + sim
-    canary = make_canary(prop, traces)
-    verdicts, st = accept.accept("Trace_MagicRobot", trace_cfg(prop), traces + [canary],
+    try:
+        canary = make_canary(prop, traces)
+    except MachineryError as e:
+        # the recorded data offer nothing to corrupt (e.g. no lifecycle callback in any trace): on the unchanged tree a
+        # machinery failure - unless the traces themselves are found wanting, which is then what gets reported
+        canary = None
+        no_canary = str(e)
+    verdicts, st = accept.accept("Trace_MagicRobot", trace_cfg(prop), traces + ([canary] if canary else []),
                                  chunk=300 if tier == "quick" else 1000, jobs=12)
     judge(prop, out, traces, canary, verdicts, st)
     out.cov["traces_validated_against_impl"] = len(traces)
@@ -296,8 +302,11 @@ def check(prop, tier):
 
 def judge(prop, out, traces, canary, verdicts, st):
     byid = {t["id"]: t for t in traces}
-    cv = accept.final_verdict(verdicts[canary["id"]])
-    canary_bad = None if cv["v"] == "MISMATCH" else "canary (corrupted observation) was not rejected: %s" % cv
+    if canary is None:
+        canary_bad = "no trace suitable for a canary"
+    else:
+        cv = accept.final_verdict(verdicts[canary["id"]])
+        canary_bad = None if cv["v"] == "MISMATCH" else "canary (corrupted observation) was not rejected: %s" % cv
     keys = set()
     counts = {"ACCEPT": 0, "MISMATCH": 0, "FOREIGN": 0, "STUCK": 0}
     events = 0
